@@ -14,9 +14,9 @@ from engine.xh.model import new_env
 
 PARAMS = {}
 
-CMDS = ["assert0", "assert1", "assert2", "assert3", "push1", "push2", "pop1", "pop2", "solve", "solve_model", "reset",
-        "is_sat", "is_valid", "is_unsat", "end"]
-REDUCED = ["assert0", "assert2", "assert3", "push1", "push2", "pop1", "solve_model", "reset", "is_sat", "end"]
+CMDS = ["assert0", "assert1", "assert2", "assert3", "assert4", "push1", "push2", "pop1", "pop2", "solve", "solve_model", "reset",
+        "is_sat", "is_sat_taut", "is_valid", "is_unsat", "end"]
+REDUCED = ["assert0", "assert2", "assert3", "assert4", "push1", "push2", "pop1", "solve_model", "reset", "is_sat", "is_sat_taut", "end"]
 
 
 def decode(codes, k):
@@ -42,6 +42,8 @@ def pool(env):
     d, e = m.Symbol("d", T.BOOL), m.Symbol("e", T.BOOL)
     # assert0 mentions symbols (d, e) only in parts that simplification removes
     return {"assert0": m.And(m.Or(a, b), m.Or(d, m.TRUE()), m.Implies(m.FALSE(), e)), "assert1": m.Not(a), "assert2": m.BVULT(x, y), "assert3": m.And(c, m.Equals(y, m.BV(1, 2))),
+            # assert4 contradicts assert3 (unsatisfiable stacks); q_taut simplifies to TRUE before it reaches the solver
+            "assert4": m.And(m.Not(c), m.BVULT(y, x)), "q_taut": m.Or(e, m.Not(e)),
             "q_sat": m.And(b, m.Not(c)), "q_valid": m.Or(a, m.Not(a), m.BVULT(x, x)), "q_unsat": m.And(a, m.Not(a)),
             "a": a, "x": x}
 
@@ -145,6 +147,10 @@ def history_body(codes, twin):
                     elif nm == "is_sat":
                         if solver.is_sat(P["q_sat"]) != truth(live() + [P["q_sat"]]):
                             ok, why = False, "is_sat wrong"
+                            break
+                    elif nm == "is_sat_taut":
+                        if solver.is_sat(P["q_taut"]) != truth(live()):
+                            ok, why = False, "is_sat(tautology) is not the satisfiability of the live assertions"
                             break
                     elif nm == "is_valid":
                         if solver.is_valid(P["q_valid"]) != (not truth(live() + [m.Not(P["q_valid"])])):
